@@ -247,7 +247,7 @@ func TestFollowOnEffects(t *testing.T) {
 	ck := map[string]sysrun.Checker{"resolved-reporting": oracle.ResolvedReporting, "obligations": oracle.Obligations}
 	sysrun.Run(t, "C14", sub, sysrun.Family{Name: "follow", Quick: 80, Thorough: 4000,
 		NonTrivial: func(c map[string]int64) bool { return c["resolved_listed"] > 0 },
-		Opt: scen.GenOpt{Horizon: 45 * time.Minute, Depth: 1, Fanout: 2, ShortTimers: true, NearTicks: true, MaxLabelSets: 4},
+		Opt:        scen.GenOpt{Horizon: 45 * time.Minute, Depth: 1, Fanout: 2, ShortTimers: true, NearTicks: true, MaxLabelSets: 4},
 		Mutate: func(r *rand.Rand, s *scen.Scenario) {
 			s.Yields = []scen.YieldRule{{Point: "worker.recv", Sleep: 3 * time.Millisecond, Prob: 0.4}, {Point: "worker.recv", Sleep: 6 * time.Millisecond, Prob: 0.2}}
 			// add back-to-back pairs: for every explicit resolve, a re-fire 1 ms later (and vice versa)
